@@ -109,7 +109,7 @@ const GEN: &str = "cases = (farm fee variant: zero / in a reward denom / in anot
 pub fn check_c05(tier: Tier, seed: u64) -> PropReport {
     let mut rep = base("C05", tier, seed, &format!("{GEN}oracle after every step, from public queries and the bank: for every denom, farm manager balance >= sum of all positions' recorded LP + sum over live farms of (funded - claimed); farm closes refund exactly the remainder to the farm owner; at the end of every history a liquidation (claim, close every open position in a generated order, wait a year, withdraw everything, close every farm) where each step must succeed and pay exactly the recorded amount. non-trivial = history with a partial close, an emergency exit while a farm is active, or a paying claim; distinct by the generated history"));
     let e = c05_engine();
-    let cases = n(tier, 1500, 30_000);
+    let cases = n(tier, 5000, 30_000);
     let o = drive(&e, "C05", tier, cases, seed);
     rep.push(e.name, o);
     rep.floor("position close: partial", cases / 4);
@@ -122,7 +122,7 @@ pub fn check_c05(tier: Tier, seed: u64) -> PropReport {
 pub fn check_c06(tier: Tier, seed: u64) -> PropReport {
     let mut rep = base("C06", tier, seed, &format!("{GEN}oracle on every Claim: a claim the ledger calls rightful (open position, valid until_epoch) must succeed, one it calls invalid must fail; what the bank pays equals what the farms' claimed amounts grew by; per farm the cumulative payout never exceeds min(funded, emission rate x elapsed farm epochs); the claimer never receives more than the ledger's sum over unpaid farm-epochs of floor(emission x own weight in effect / total weight in effect); no (user, farm, epoch) is paid twice. non-trivial = history with a claim that pays > 0; distinct by the generated history"));
     let e = c06_engine();
-    let cases = n(tier, 2000, 50_000);
+    let cases = n(tier, 6000, 50_000);
     let o = drive(&e, "C06", tier, cases, seed);
     rep.push(e.name, o);
     rep.floor("claim: paid > 0", cases / 2);
@@ -133,7 +133,7 @@ pub fn check_c06(tier: Tier, seed: u64) -> PropReport {
 pub fn check_c08(tier: Tier, seed: u64) -> PropReport {
     let mut rep = base("C08", tier, seed, &format!("{GEN}oracle: a model of positions (id, owner, LP amount, open, duration, unlock time) updated only by the documented rules; after every step the positions reported for every account equal the model (nothing appears, disappears or changes otherwise); every position message is accepted exactly when the rules allow it (owner-only close/withdraw, owner or pool manager to add, create-for-other only from the pool manager, duration range, identifier free, limits) - in particular a normal withdrawal succeeds iff the position is closed and now >= close time + duration; an accepted withdrawal pays the owner exactly the recorded amount and nobody else; closes move no funds; partial closes conserve the total. non-trivial = withdrawal attempted within 1s of the unlock instant, or a partial close; distinct by the generated history"));
     let e = c08_engine();
-    let cases = n(tier, 2000, 40_000);
+    let cases = n(tier, 6000, 40_000);
     let o = drive(&e, "C08", tier, cases, seed);
     rep.push(e.name, o);
     rep.floor("withdraw attempt within 1s of the unlock instant", cases / 20);
@@ -146,7 +146,7 @@ pub fn check_c08(tier: Tier, seed: u64) -> PropReport {
 pub fn check_c11(tier: Tier, seed: u64) -> PropReport {
     let mut rep = base("C11", tier, seed, &format!("{GEN}oracle: farm creation is accepted exactly when an independent predicate written from the documentation says so (live farms below the limit after auto-closing expired ones, reward >= minimum, funds exactly reward + fee with overpaid fee refunded, epochs inside the buffer, identifier free); on success the complete map of balance changes equals: creator -(reward+fee) net of refund, fee collector +fee, farm manager +reward, owners of auto-closed expired farms + their unclaimed remainder, nobody else; the farm reported afterwards has budget = reward and rate = floor(reward/epochs); expansion accepted only for the owner, before the end, in multiples of the rate, adds exactly the amount and amount/rate epochs; close accepted only for the farm owner or the contract owner and refunds exactly funded - claimed to the farm owner; after every step the reported farms equal the model and no LP token has more unexpired farms than configured. non-trivial = farm closed (or auto-closed) after claims, or expanded after claims; distinct by the generated history"));
     let e = c11_engine();
-    let cases = n(tier, 2000, 40_000);
+    let cases = n(tier, 6000, 40_000);
     let o = drive(&e, "C11", tier, cases, seed);
     rep.push(e.name, o);
     rep.floor("farm auto-closed on create", cases / 20);
@@ -159,10 +159,10 @@ pub fn check_c07(tier: Tier, seed: u64) -> PropReport {
     use crate::props::farm_twins::Schedules;
     let mut rep = base("C07", tier, seed, &format!("{GEN}engine 1 (histories): every successful Claim must pay, per reward denom and per farm, exactly the ledger's sum over the unpaid farm-epochs of floor(emission x own weight in effect that epoch / total weight in effect that epoch) - equality, i.e. never more and less by under one unit per farm-epoch - and the Rewards query issued immediately before must report exactly what the claim then pays (and fail iff it fails). engine 2 (schedule twins): a generated history of farms, position openings/top-ups and epoch advances (<= 25 epochs, farms never closed) is replayed into three fresh worlds that differ only in the claim schedule - every user claims every epoch / everybody claims once at the end / one generated user claims after each advance with until_epoch = now - k (k generated, clamped to the cursor) - and the per-user per-denom totals must be equal. non-trivial = history with a paying claim (engine 1); triple spanning >= 3 epochs with payouts and a weight change between two claims of the split schedule (engine 2)"));
     let e = c07_engine();
-    let cases = n(tier, 2000, 50_000);
+    let cases = n(tier, 6000, 50_000);
     let o = drive(&e, "C07", tier, cases, seed);
     rep.push(e.name, o);
-    let t = n(tier, 400, 20_000);
+    let t = n(tier, 1500, 20_000);
     let o = drive(&Schedules, "C07", tier, t, seed);
     rep.push(Schedules.name(), o);
     rep.floor("claim: paid > 0", cases / 2);
@@ -175,10 +175,10 @@ pub fn check_c09(tier: Tier, seed: u64) -> PropReport {
     use crate::props::farm_twins::Decay;
     let mut rep = base("C09", tier, seed, &format!("{GEN}engine 1 (histories weighted towards emergency withdrawals of open and closed positions at generated times incl. the unlock instant +-1s, with none/future/active/expired farms by the same or different owners, base penalty 0-100% changed on the way): the complete map of balance changes of an accepted emergency exit must be explained by a penalty T in [floor(amount x min(90%, base x remaining/duration x weight/amount)) - slack of the contract's 18-digit floors, floor(amount x min(90%, base x remaining/duration x m(duration)))] with m the exact parabola through (1 day,1x) (half year,5x) (year,16x): owner +amount-T, each distinct owner of a farm that has started and not expired +floor(floor(T/2)/n) when that is > 0 with the fee collector getting T-floor(T/2), otherwise the fee collector gets T; nobody else; farm manager -(sum); T <= 90%; T = 0 once unlocked; exits after unlocking pay the full amount. engine 2 (decay twins): the same generated position (amount 1..10^20, duration, optional close) exited after t1 <= t2 in two fresh worlds: penalty(t2) <= penalty(t1), and 0 at/after the unlock instant of a closed position. non-trivial = non-zero penalty (engine 1), pair with a non-zero first penalty (engine 2)"));
     let e = c09_engine();
-    let cases = n(tier, 2000, 40_000);
+    let cases = n(tier, 6000, 40_000);
     let o = drive(&e, "C09", tier, cases, seed);
     rep.push(e.name, o);
-    let t = n(tier, 800, 30_000);
+    let t = n(tier, 3000, 30_000);
     let o = drive(&Decay, "C09", tier, t, seed);
     rep.push(Decay.name(), o);
     rep.floor("emergency: non-zero penalty", cases / 2);
@@ -192,7 +192,7 @@ pub fn check_c09(tier: Tier, seed: u64) -> PropReport {
 pub fn check_c10(tier: Tier, seed: u64) -> PropReport {
     let mut rep = base("C10", tier, seed, &format!("{GEN}histories weighted towards create / top-up in pieces / partial and full close / emergency exit with amounts from 1 unit (where the fractional multiplier rounds) to 10^21 and durations incl. the anchors +-1s. oracle after every step, for the current and the next epoch: total weight of each LP token >= sum of all users' weights in effect (from a never-wiped ledger of LpWeight readings), == while no position of that LP token was split or topped up; per operation: the weight in effect in the current epoch is unchanged (changes take effect next epoch); weight added for (amount, duration) is within [amount, 16 x amount], within one unit (+ 18-digit slack) of amount x m(duration) with m the exact parabola through the three documented anchors, and monotone pairwise against every other sample of the history; the total moves by exactly what the user's weight moved; a user whose last open position in an LP token is gone has no LpWeight entry at epochs now-1..now+2. non-trivial = history with a full exit after split positions while another user still holds weight; distinct by the generated history"));
     let e = c10_engine();
-    let cases = n(tier, 2500, 50_000);
+    let cases = n(tier, 6000, 50_000);
     let o = drive(&e, "C10", tier, cases, seed);
     rep.push(e.name, o);
     rep.floor("c10: full exit after split positions while others hold weight", cases / 10);
